@@ -631,10 +631,12 @@ def expr_datas():
             "m1": J.vstr("<b>", "data", True), "l1": J.vlist([J.vint(1), J.vint(2), J.vint(3)]), "l2": J.vlist([]),
             "l3": J.vlist([J.vstr("p<"), J.vint(4)]), "d1": J.vdict([(J.vstr("a"), J.vint(1)), (J.vstr("b"), J.vlist([J.vint(5)]))]),
             "o1": J.vobj("o1"), "f1": J.vfn("f1", "nargs"), "f2": J.vfn("f2", "arg0", J.vint(7)),
-            "f3": J.vfn("f3", "const", J.vstr("r&")), "n0": J.VNONE, "t1": J.vbool(True), "e2": J.vint(2)}
+            "f3": J.vfn("f3", "const", J.vstr("r&")), "n0": J.VNONE, "t1": J.vbool(True), "e2": J.vint(2),
+            "fl1": J.vfloat(2.5), "fl2": J.vfloat(-0.75)}
     d2 = dict(base, i1=J.vint(0), i2=J.vint(5), s1=J.vstr(""), l1=J.vlist([J.vint(2)]), o1=J.vobj("o2"), t1=J.vbool(False),
+              fl1=J.vfloat(0.5), fl2=J.vfloat(4.0),
               d1=J.vdict([(J.vstr("c"), J.vint(0))]), m1=J.vstr("", "data", True))
-    d3 = {k: v for k, v in base.items() if k not in ("i2", "s2", "l3", "d1", "f2")}
+    d3 = {k: v for k, v in base.items() if k not in ("i2", "s2", "l3", "d1", "f2", "fl2")}
     d3["l1"] = J.vlist([J.vint(4), J.vint(0)], tup=True)
     return [base, d2, d3]
 
@@ -662,25 +664,48 @@ class ExprGen:
                                    [("k", self.gany(d - 1))] if self.rnd.random() < 0.3 else [])
         if r < 0.74: return J.Getitem(self.glist(d - 1), self.pick(C(0), C(1), J.Neg(C(1)), self.gint(0)))
         if r < 0.8: return J.Cond(self.gbool(d - 1), self.gint(d - 1), self.gint(d - 1))
-        if r < 0.85: return J.Filter(self.gany(d - 1), "int")
+        if r < 0.85: return J.Filter(self.gany(d - 1) if self.rnd.random() < 0.6 else self.gflt(d - 1), "int")
         if r < 0.9: return J.Filter(self.gint(d - 1), "abs")
         if r < 0.95: return self.pick(J.Getattr(N("o1"), "a"), J.Getitem(N("o1"), C("a")), J.Getattr(N("o1"), "b"),
                                       J.Getitem(N("o1"), C("b")), J.Getattr(N("d1"), "a"), J.Getitem(N("d1"), C("a")))
         return J.Pos(self.gint(d - 1))
+
+    def gnum(self, d):
+        return self.gflt(d) if self.rnd.random() < 0.5 else self.gint(d)
+
+    def gflt(self, d):
+        """Float-valued expressions over exactly representable values (true division, float literals and data,
+        negative powers, |float, |round, sum)."""
+        r = self.rnd.random()
+        if d <= 0 or r < 0.25:
+            return self.pick(C(0.5), C(2.5), C(1.5), C(0.25), N("fl1"), N("fl2"), C(2.0), N("fl1"))
+        if r < 0.62:
+            op = self.pick("+", "-", "*", "/", "//", "%", "**", "/", "*")
+            if op == "**":
+                return J.Bin(op, self.gnum(d - 1), self.pick(C(2), C(3), N("e2"), C(0), J.Neg(C(1)), J.Neg(C(2)), N("z"), C(2.0)))
+            return J.Bin(op, self.gnum(d - 1), self.gnum(d - 1))
+        if r < 0.69: return J.Neg(self.gflt(d - 1))
+        if r < 0.76: return J.Filter(self.gnum(d - 1), "float")
+        if r < 0.86:
+            return J.Filter(self.gnum(d - 1), "round", self.pick([], [], [C(0)], [C(0), C("ceil")], [C(0), C("floor")], [C(0), C("common")]))
+        if r < 0.91: return J.Filter(self.gflt(d - 1), "abs")
+        if r < 0.96: return J.Filter(J.List([self.gnum(d - 1), self.gnum(d - 1)]), "sum")
+        return J.Cond(self.gbool(d - 1), self.gflt(d - 1), self.gint(d - 1))
 
     def gbool(self, d):
         r = self.rnd.random()
         if d <= 0 or r < 0.15:
             return self.pick(C(True), C(False), N("t1"))
         if r < 0.4:
-            ops = [(self.pick("eq", "ne", "lt", "lteq", "gt", "gteq"), self.gint(d - 1))]
+            g = self.gnum if self.rnd.random() < 0.3 else self.gint
+            ops = [(self.pick("eq", "ne", "lt", "lteq", "gt", "gteq"), g(d - 1))]
             if self.rnd.random() < 0.3:
-                ops.append((self.pick("lt", "lteq", "gt", "eq"), self.gint(d - 1)))
-            return J.Cmp(self.gint(d - 1), *ops)
+                ops.append((self.pick("lt", "lteq", "gt", "eq"), g(d - 1)))
+            return J.Cmp(g(d - 1), *ops)
         if r < 0.5: return J.Not(self.gany(d - 1))
         if r < 0.65:
             return J.Test(self.gany(d - 1), self.pick("defined", "undefined", "none", "string", "number", "sequence", "mapping",
-                                                      "iterable", "boolean", "integer", "callable", "true", "false"),
+                                                      "iterable", "boolean", "integer", "callable", "true", "false", "float"),
                           neg=self.rnd.random() < 0.3)
         if r < 0.75: return J.Test(self.gint(d - 1), self.pick("odd", "even"))
         if r < 0.82: return J.Test(self.gint(d - 1), "divisibleby", [self.pick(C(2), C(3), N("z"))])
@@ -730,6 +755,7 @@ class ExprGen:
     def gany(self, d):
         r = self.rnd.random()
         if self.rich and r < 0.7: return self.gstr(d)
+        if r < 0.07: return self.gflt(d)
         if r < 0.25: return self.gint(d)
         if r < 0.4: return self.gbool(d)
         if r < 0.55: return self.gstr(d)
@@ -747,7 +773,7 @@ class ExprGen:
                          J.Bin("//", self.gint(d - 1), C(0)))
 
 
-def expr_cases(seed, n, start_id=1, depth=3, auto=None, rich=False):
+def expr_cases(seed, n, start_id=1, depth=3, auto=None, rich=False, numeric=False):
     rnd = random.Random(seed)
     g = ExprGen(rnd, rich)
     cases = []
@@ -755,7 +781,15 @@ def expr_cases(seed, n, start_id=1, depth=3, auto=None, rich=False):
     for i in range(n):
         a = rnd.random() < 0.5 if auto is None else auto
         e = g.gany(rnd.randint(1, depth))
-        if rnd.random() < 0.06:
+        if numeric:
+            # float-centred: arithmetic, comparison, printing inside a container, concatenation
+            dd = rnd.randint(1, depth)
+            e = rnd.choice([lambda: g.gflt(dd), lambda: g.gflt(dd), lambda: J.List([g.gflt(dd - 1), g.gnum(dd - 1)]),
+                            lambda: J.Concat(g.gflt(dd - 1), C("|"), g.gnum(dd - 1)),
+                            lambda: J.Cmp(g.gnum(dd - 1), (rnd.choice(["eq", "ne", "lt", "lteq", "gt", "gteq"]), g.gnum(dd - 1))),
+                            lambda: J.Getitem(J.Dict([(C(1), C("one")), (C(2.5), C("x"))]), g.gnum(dd - 1)),
+                            lambda: J.Cmp(g.gnum(dd - 1), ("in", J.List([C(1), C(0.5), g.gnum(dd - 1)])))])()
+        elif rnd.random() < 0.06:
             # a filter and a test of the same name in one expression (distinct registries)
             e = J.Concat(J.Filter(g.gany(1), "string"), J.Cond(J.Test(g.gany(1), "string"), g.gstr(1), g.gint(1)))
         c = J.make_case(start_id + i, {"main": J.template([J.Out(e)], a)}, "main", datas, objs=EXPR_OBJS,
